@@ -116,6 +116,13 @@ fn cc_soft_cap_multiplier(conn: &SrtlaConnection) -> f64 {
     (headroom / cap_f).clamp(CC_SOFT_CAP_FLOOR, 1.0)
 }
 
+/// Verification hook (feature `verif-hooks`, OFF by default): exposes the private
+/// soft-cap factor to the external harness crates. Add-only, no logic of its own.
+#[cfg(feature = "verif-hooks")]
+pub fn vh_cc_soft_cap_multiplier(conn: &SrtlaConnection) -> f64 {
+    cc_soft_cap_multiplier(conn)
+}
+
 /// Select best connection using enhanced algorithm with quality awareness
 ///
 /// Returns the index of the connection with the best quality-adjusted score.
